@@ -46,6 +46,8 @@ func minInt(a, b int) int {
 var modelTier = "quick"
 
 type ModelWObs struct {
+	EventsOK bool // event_ok_b holds for every block of the ghost trace (premise of the codec theorems)
+	Events   int
 	OOB   bool
 	Res   []OpRes // Err is "" or "E"
 	Dests [][][]byte
@@ -90,10 +92,11 @@ func (p *DriverPool) ModelW(s Setting, datas [][]byte, ops []Op, failAt int) (*M
 		return nil, err
 	}
 	f := strings.Split(ans, " ")
-	if len(f) != 4 || f[0] != "W" {
+	if len(f) != 6 || f[0] != "W" {
 		return nil, fmt.Errorf("driver answered %q", trunc(ans, 200))
 	}
-	m := &ModelWObs{OOB: f[1] == "1"}
+	m := &ModelWObs{OOB: f[1] == "1", EventsOK: f[4] == "1"}
+	fmt.Sscanf(f[5], "%d", &m.Events)
 	if f[2] != "-" {
 		for _, r := range strings.Split(f[2], ",") {
 			var n, e int
@@ -155,10 +158,15 @@ func compareModel(rep *Report, pool *DriverPool, c interface{}, s Setting, datas
 	rep.ModelCases++
 	rep.mu.Unlock()
 	rep.Count("model:compared")
+	rep.mu.Lock()
+	rep.Hist["model:blocks-validated"] += m.Events
+	rep.mu.Unlock()
 	diff := ""
 	switch {
 	case m.OOB:
 		diff = "the model reports an out-of-bounds access or an exhausted loop bound"
+	case !m.EventsOK:
+		diff = "a block of the model's trace fails event_ok_b (code lengths over-subscribed, above the limit or missing for a used symbol): the premise of the codec theorems does not hold for this history"
 	case len(m.Res) != len(obs.Res):
 		diff = fmt.Sprintf("model has %d results, implementation %d", len(m.Res), len(obs.Res))
 	}
